@@ -34,6 +34,9 @@ def cases(rng, tier):
         kind = "selfshift" if i % 4 == 3 else "cascade"
         prog, labels = with_probes(rng, G.gen_selfshift(rng) if kind == "selfshift" else G.gen_cascade(rng))
         cs.append(G.finish(prog, rng, [kind], extra={"probes": len(labels)}))
+    for i in range(n // 10):
+        prog, labels = with_probes(rng, G.gen_macro_arg_layout(rng))
+        cs.append(G.finish(prog, rng, ["macro-arg-layout"], extra={"probes": len(labels)}))
     return cs
 
 
